@@ -505,7 +505,14 @@ impl World {
             },
             nonce,
             gas_price: 0,
-            gas_limit: 0,
+            // the gas limit field of the signed payload is not what bounds the execution (the inscription size is): most
+            // transactions carry 0, some a value far above or below any allowance
+            gas_limit: match (nonce + input.len() as u64 * 7 + signer_idx as u64) % 6 {
+                0 => 1_000_000,
+                1 => u64::MAX,
+                2 => 21_000,
+                _ => 0,
+            },
             to: match to {
                 Some(a) => ATxKind::Call(a),
                 None => ATxKind::Create,
@@ -1113,7 +1120,13 @@ impl World {
                 let cs: Vec<Value> = calls.iter().map(|(f, t, d)| self.eth_call_obj(f, t, d, &None)).collect();
                 let n = cs.len();
                 if *overrides {
-                    let txids: Vec<String> = (0..n).map(|i| txid_for(9000 + i as u32)).collect();
+                    // the list of transaction ids may be as long as the call list, shorter, or empty
+                    let keep = match (n + cs.iter().map(|c| c["data"].as_str().map_or(0, |d| d.len())).sum::<usize>()) % 3 {
+                        0 => n,
+                        1 => 0,
+                        _ => n.saturating_sub(1),
+                    };
+                    let txids: Vec<String> = (0..keep).map(|i| txid_for(9000 + i as u32)).collect();
                     out.push(self.call(
                         "eth_callMany",
                         json!([cs, blk, {"opReturnTxIds": txids, "bitcoinTxHexes": {}}]),
